@@ -24,6 +24,9 @@ BLOCKING_REGISTRY = {
     ("concurrency/executor.py:ConcurrentExecutor._on_task_complete", "future.result"): "done-callback: the future is already finished",
     ("config.py:StepFuture.result", "self.future.result"): "public helper, not used by the SDK; bounded when the caller passes a timeout",
     ("threading.py:CompletionEvent.wait", "self._event.wait"): "wrapper primitive: judged at its call sites",
+    ("state.py:ExecutionState.raise_if_checkpointing_failed", "self._checkpointing_failed.wait"): "dominated by is_set(): returns/raises immediately",
+    ("execution.py:durable_execution.<locals>.wrapper.<locals>.raise_if_checkpointing_failed", "checkpoint_future.result"):
+        "dominated by stop_checkpointing(): the consumer loops observe the stop flag (C18/R4.consumer-loops-observe-stop) and the loop's API call is bounded by the client",
 }
 
 
@@ -234,11 +237,23 @@ def build() -> Check:
         ck.ob("R4.blocking-call-registered", c, (c, call) in BLOCKING_REGISTRY,
               f"unbounded blocking call {call}() is not registered with a wake-up argument", where=f"line {line}", cell=call)
     # the failure-flag wait is dominated by is_set()
-    g = CFG(pm.ckpt_fn)
-    for w in g.find_calls("wait", "self._checkpointing_failed"):
-        guards = [n for n in g.nodes if n.kind == "header" and isinstance(n.stmt, ast.If) and "self._checkpointing_failed.is_set()" in ast.unparse(n.stmt.test)
-                  and any(w.stmt is x for b in n.stmt.body for x in ast.walk(b))]
-        ck.ob("R4.flag-wait-guarded-by-is-set", fn_construct(pm.ckpt_fn), bool(guards), "_checkpointing_failed.wait() outside `if ...is_set()`", where=g.loc(w))
+    for fw in [pm.ckpt_fn, *[m for n_, m in pm.state_cls.methods.items() if m is not pm.ckpt_fn and "_checkpointing_failed.wait" in ast.unparse(m.node)]]:
+        g = CFG(fw)
+        for w in g.find_calls("wait", "self._checkpointing_failed"):
+            guards = [n for n in g.nodes if n.kind == "header" and isinstance(n.stmt, ast.If) and "self._checkpointing_failed.is_set()" in ast.unparse(n.stmt.test)
+                      and any(w.stmt is x for b in n.stmt.body for x in ast.walk(b))]
+            ck.ob("R4.flag-wait-guarded-by-is-set", fn_construct(fw), bool(guards), "_checkpointing_failed.wait() outside `if ...is_set()`", where=g.loc(w))
+    # the wrapper's wait for the background loop is dominated by the stop signal
+    for fi in prog.functions.values():
+        if isinstance(fi.node, ast.Lambda) or fi.module.short() != "execution":
+            continue
+        for c in walk_shallow(fi.node):
+            if isinstance(c, ast.Call) and isinstance(c.func, ast.Attribute) and c.func.attr == "result" and "checkpoint" in ast.unparse(c.func.value):
+                g2 = CFG(fi)
+                waits2 = g2.find_calls("result", ast.unparse(c.func.value))
+                stops2 = g2.find_calls("stop_checkpointing")
+                ck.ob("R4.join-after-stop", fn_construct(fi), bool(waits2) and all(any(g2.dominates(s_.idx, w_.idx) for s_ in stops2) for w_ in waits2),
+                      f"`{ast.unparse(c)}` waits for the background loop without having told it to stop first", where=f"line {c.lineno}")
 
     # R5 timer -----------------------------------------------------------------------------------------
     ts = prog.cls("concurrency.executor", "TimerScheduler")
